@@ -443,6 +443,10 @@ func raceRelevant(id, rep string) bool {
 	if id == "C18" {
 		return strings.Contains(rep, "pkg/http2/hpack.")
 	}
+	if id == "C06" {
+		// state shared between connections: both accesses happen in code of fingerproxy
+		return strings.Count(raceSig(rep), "~") == 1
+	}
 	for _, k := range []string{"pkg/metadata.", "pkg/fingerprint.", "(*serverConn).processFrame"} {
 		if strings.Contains(rep, k) {
 			return true
